@@ -32,7 +32,7 @@ CONSTANTS
   VerBumps,    \* TRUE: the environment may move the desired resources to another apiVersion of their kind
   Legacies,    \* TRUE: the composed resources' managed fields may become what a client-side-apply writer left
   Forges,      \* TRUE: the desired resources' bodies may carry a stale composition-resource-name annotation
-  FailKinds    \* ways the pipeline can fail (Pipeline mode): subset of {"fnerror","fatal","reqloop","badinput","nocreds"}
+  FailKinds    \* ways the pipeline can fail (Pipeline mode): subset of {"fnerror","fatal","reqloop","reqlabel","reqflip","badinput","nocreds"} + step suffix
 
 Ids == 1..MaxObjs
 None == 0
